@@ -175,7 +175,20 @@ def op_method(name, eigh=None):
             ctx.eigh_Q = [[H.num(c) for c in row] for row in (Q_PROPER if eigh == "proper" else Q_IMPROPER)]
         if name == "diagonalize_inertia":
             before, quad = _orient_sign(s, H)
-            getattr(s, name)()
+            if ctx is None and eigh is not None:
+                # float64 replay under the same environment: LAPACK may return any orthogonal eigenvector matrix (either
+                # handedness); the harness's matrix is imposed on the real numpy for the duration of the call
+                import numpy
+
+                real = numpy.linalg.eigh
+                Q = numpy.array([[float(c) for c in row] for row in (Q_PROPER if eigh == "proper" else Q_IMPROPER)])
+                numpy.linalg.eigh = lambda m, *a, **k: (numpy.zeros(3), Q.copy())
+                try:
+                    getattr(s, name)()
+                finally:
+                    numpy.linalg.eigh = real
+            else:
+                getattr(s, name)()
             after, _ = _orient_sign(s, H, quad)
             H.claim("not_mirrored", before * after > 0)
         else:
